@@ -49,12 +49,20 @@ func c12Plmn(c *core.Ctx, k *core.Case) {
 				want := refconv.PlmnWire(mcc, mnc)
 				got := nasConvert.PlmnIDToNas(models.PlmnId{Mcc: mcc, Mnc: mnc})
 				n++
+				if mncN%97 == 0 {
+					c.Hold(&core.Case{Oracle: "plmn-one", Target: "nasConvert.PlmnIDToNas", S: []string{mcc, mnc}}, "nasConvert.PlmnIDToNas", got)
+				}
 				if !bytes.Equal(got, want[:]) {
 					kk := &core.Case{Oracle: "plmn-one", Target: "nasConvert.PlmnIDToNas", S: []string{mcc, mnc}}
 					c.Fail(kk, "plmn-wire", fmt.Sprintf("PlmnIDToNas(%s,%s) = %x, TS 24.008 layout %x", mcc, mnc, got, want))
 				}
-				txt := nasConvert.PlmnIDToString(want[:])
+				wbuf := want
+				txt := nasConvert.PlmnIDToString(wbuf[:])
 				n++
+				if wbuf != want {
+					kk := &core.Case{Oracle: "plmn-one", Target: "nasConvert.PlmnIDToString", S: []string{mcc, mnc}}
+					c.Fail(kk, "input-mutated", fmt.Sprintf("PlmnIDToString changed the caller's octets %x -> %x", want, wbuf))
+				}
 				if txt != mcc+mnc {
 					kk := &core.Case{Oracle: "plmn-one", Target: "nasConvert.PlmnIDToString", S: []string{mcc, mnc}}
 					c.Fail(kk, "plmn-text", fmt.Sprintf("PlmnIDToString(%x) = %q, want %q", want, txt, mcc+mnc))
@@ -117,8 +125,12 @@ func c12Guti(c *core.Ctx, k *core.Case) {
 	wire := refconv.GutiWire(mcc, mnc, amf, tmsi)
 	text := refconv.GutiText(mcc, mnc, amf, tmsi)
 	c.Eval(1)
-	// wire -> text
-	guami, gt, err := nasConvert.GutiToStringWithError(cloneB(wire))
+	// wire -> text (twice on the same buffer: the caller's octets must survive the conversion)
+	wbuf := cloneB(wire)
+	guami, gt, err := nasConvert.GutiToStringWithError(wbuf)
+	if _, gt2, _ := nasConvert.GutiToStringWithError(wbuf); !bytes.Equal(wbuf, wire) || gt2 != gt {
+		c.Fail(k, "input-mutated", fmt.Sprintf("GutiToStringWithError changed the caller's buffer %x -> %x (second conversion gives %q)", wire, wbuf, gt2))
+	}
 	if err != nil || gt != text {
 		c.Fail(k, "guti-text", fmt.Sprintf("GutiToStringWithError(%x) = %q, %v; want %q", wire, gt, err, text))
 	} else if guami.PlmnId == nil || guami.PlmnId.Mcc != mcc || guami.PlmnId.Mnc != mnc || guami.AmfId != fmt.Sprintf("%06x", amf) {
@@ -195,7 +207,11 @@ func c12Suci(c *core.Ctx, k *core.Case) {
 	wire := refconv.SuciWire(mcc, mnc, rid, scheme, hn, msin, k.B[0])
 	text := refconv.SuciText(mcc, mnc, rid, scheme, hn, msin, k.B[0])
 	c.Eval(1)
-	s, plmn, err := nasConvert.SuciToStringWithError(cloneB(wire))
+	sbuf := cloneB(wire)
+	s, plmn, err := nasConvert.SuciToStringWithError(sbuf)
+	if !bytes.Equal(sbuf, wire) {
+		c.Fail(k, "input-mutated", fmt.Sprintf("SuciToStringWithError changed the caller's buffer %x -> %x", wire, sbuf))
+	}
 	if err != nil || s != text || plmn != mcc+mnc {
 		c.Fail(k, "suci-text", fmt.Sprintf("SuciToStringWithError(%x) = %q,%q,%v; TS 24.501 9.11.3.4 text %q", wire, s, plmn, err, text))
 	}
@@ -235,6 +251,10 @@ func c12Pei(c *core.Ctx, k *core.Case) {
 	wire := refconv.PeiWire(dg, sv)
 	text := refconv.PeiText(dg, sv)
 	c.Eval(1)
+	pbuf := cloneB(wire)
+	if _, err := nasConvert.PeiToStringWithError(pbuf); err != nil || !bytes.Equal(pbuf, wire) {
+		c.Fail(k, "input-mutated", fmt.Sprintf("PeiToStringWithError changed the caller's buffer %x -> %x (err %v)", wire, pbuf, err))
+	}
 	if s, err := nasConvert.PeiToStringWithError(cloneB(wire)); err != nil || s != text {
 		c.Fail(k, "pei-text", fmt.Sprintf("PeiToStringWithError(%x) = %q,%v; want %q", wire, s, err, text))
 	}
@@ -377,6 +397,17 @@ func init() {
 							{"AmfIdToNasWithError", fmt.Sprintf("%08x", tmsi), "four-octets"},
 							{"AmfIdToNasWithError", fmt.Sprintf("%05x", amf&0xfffff), "odd-length"},
 							{"AmfIdToNasWithError", "zz" + fmt.Sprintf("%04x", amf&0xffff), "non-hex"},
+							{"AmfIdToNasWithError", "+" + fmt.Sprintf("%05x", amf&0xfffff), "plus-sign"},
+							{"AmfIdToNasWithError", "-" + fmt.Sprintf("%05x", amf&0xfffff), "minus-sign"},
+							{"AmfIdToNasWithError", " " + fmt.Sprintf("%05x", amf&0xfffff), "leading-space"},
+							{"AmfIdToNasWithError", fmt.Sprintf("%05x", amf&0xfffff) + " ", "trailing-space"},
+							{"AmfIdToNasWithError", "0x" + fmt.Sprintf("%04x", amf&0xffff), "0x-prefix"},
+							{"AmfIdToNasWithError", fmt.Sprintf("%03x", amf&0xfff) + "_" + fmt.Sprintf("%02x", amf&0xff), "underscore"},
+							{"GutiToNasWithError", good[:len(mcc)+len(mnc)] + "+" + good[len(mcc)+len(mnc)+1:], "sign-in-amfid"},
+							{"GutiToNasWithError", good[:len(mcc)+len(mnc)] + "-" + good[len(mcc)+len(mnc)+1:], "minus-in-amfid"},
+							{"GutiToNasWithError", good[:len(good)-8] + "+" + good[len(good)-7:], "sign-in-tmsi"},
+							{"GutiToNasWithError", "+" + good[1:], "sign-in-mcc"},
+							{"GutiToNasWithError", good[:3] + " " + good[4:], "space-in-mnc"},
 						}
 						_ = pos
 						for _, b := range bads {
